@@ -238,4 +238,363 @@ theorem includeTarget_eq (body : Text) :
     simp only [hc, hc']
     rfl
 
+/-! ### the `active_set` discipline: the check `chk` is sound for the semantics `Exec` -/
+
+/-- meaning of the abstract states, relative to the set `a` at entry -/
+def absHolds (p : Path) (a : List Path) : Abs → List Path → Prop
+  | .entry, s => s = a
+  | .guarded, s => s = a ∧ p ∉ a
+  | .pushed, s => s = p :: a ∧ p ∉ a
+
+def Post (p : Path) (a : List Path) (n c : Option Abs) (k : Exit) (s' : List Path) (log : List (List Path)) : Prop :=
+  (k = .normal → ∃ st', n = some st' ∧ absHolds p a st' s') ∧
+  (k = .cont → ∃ st', c = some st' ∧ absHolds p a st' s') ∧
+  (k = .retOk → s' = a) ∧
+  (∀ x ∈ log, x = p :: a)
+
+theorem joinAbs_right {c1 c : Option Abs} {y : Abs} (h : joinAbs c1 (some y) = some c) : c = some y := by
+  cases c1 with
+  | none => simp [joinAbs] at h; exact h.symm
+  | some x =>
+    simp only [joinAbs] at h
+    split at h
+    · rename_i hxy; cases h; rw [hxy]
+    · cases h
+
+theorem joinAbs_left {c2 c : Option Abs} {x : Abs} (h : joinAbs (some x) c2 = some c) : c = some x := by
+  cases c2 with
+  | none => simp [joinAbs] at h; exact h.symm
+  | some y =>
+    simp only [joinAbs] at h
+    split at h
+    · cases h; rfl
+    · cases h
+
+theorem absHolds_set {p : Path} {a : List Path} {st : Abs} {s : List Path} (h : absHolds p a st s) (hne : st ≠ .pushed) :
+    s = a := by
+  cases st with
+  | entry => exact h
+  | guarded => exact h.1
+  | pushed => exact absurd rfl hne
+
+theorem chk_sound (p : Path) (a : List Path) {sk : Skel} {s : List Path} {k : Exit} {s' : List Path}
+    {log : List (List Path)} (h : Exec p sk s k s' log) :
+    ∀ st n c, chk sk st = some (n, c) → absHolds p a st s → Post p a n c k s' log := by
+  induction h with
+  | skip s =>
+    intro st n c hc hg
+    simp only [chk, Option.some.injEq, Prod.mk.injEq] at hc
+    obtain ⟨rfl, rfl⟩ := hc
+    exact ⟨fun _ => ⟨st, rfl, hg⟩, by simp, by simp, by simp⟩
+  | exitErr s => intro st n c _ _; exact ⟨by simp, by simp, by simp, by simp⟩
+  | mayFail_ok s =>
+    intro st n c hc hg
+    simp only [chk, Option.some.injEq, Prod.mk.injEq] at hc
+    obtain ⟨rfl, rfl⟩ := hc
+    exact ⟨fun _ => ⟨st, rfl, hg⟩, by simp, by simp, by simp⟩
+  | mayFail_err s => intro st n c _ _; exact ⟨by simp, by simp, by simp, by simp⟩
+  | guard_in s _ => intro st n c _ _; exact ⟨by simp, by simp, by simp, by simp⟩
+  | guard_out s hp =>
+    intro st n c hc hg
+    simp only [chk] at hc
+    split at hc
+    · cases hc
+    · rename_i hne
+      simp only [Option.some.injEq, Prod.mk.injEq] at hc
+      obtain ⟨rfl, rfl⟩ := hc
+      have hs := absHolds_set hg hne
+      subst hs
+      exact ⟨fun _ => ⟨.guarded, rfl, rfl, hp⟩, by simp, by simp, by simp⟩
+  | insert s =>
+    intro st n c hc hg
+    simp only [chk] at hc
+    split at hc
+    · rename_i he
+      subst he
+      simp only [Option.some.injEq, Prod.mk.injEq] at hc
+      obtain ⟨rfl, rfl⟩ := hc
+      obtain ⟨rfl, hp⟩ := hg
+      exact ⟨fun _ => ⟨.pushed, rfl, rfl, hp⟩, by simp, by simp, by simp⟩
+    · cases hc
+  | remove s =>
+    intro st n c hc hg
+    simp only [chk] at hc
+    split at hc
+    · rename_i he
+      subst he
+      simp only [Option.some.injEq, Prod.mk.injEq] at hc
+      obtain ⟨rfl, rfl⟩ := hc
+      obtain ⟨rfl, hp⟩ := hg
+      exact ⟨fun _ => ⟨.guarded, rfl, by simp, hp⟩, by simp, by simp, by simp⟩
+    · cases hc
+  | tokens_ok s =>
+    intro st n c hc hg
+    simp only [chk] at hc
+    split at hc
+    · rename_i he
+      subst he
+      simp only [Option.some.injEq, Prod.mk.injEq] at hc
+      obtain ⟨rfl, rfl⟩ := hc
+      exact ⟨fun _ => ⟨.pushed, rfl, hg⟩, by simp, by simp, by simpa using hg.1⟩
+    · cases hc
+  | tokens_err s =>
+    intro st n c hc hg
+    simp only [chk] at hc
+    split at hc
+    · rename_i he
+      subst he
+      exact ⟨by simp, by simp, by simp, by simpa using hg.1⟩
+    · cases hc
+  | recursive_ok s =>
+    intro st n c hc hg
+    simp only [chk, Option.some.injEq, Prod.mk.injEq] at hc
+    obtain ⟨rfl, rfl⟩ := hc
+    exact ⟨fun _ => ⟨st, rfl, hg⟩, by simp, by simp, by simp⟩
+  | recursive_err s => intro st n c _ _; exact ⟨by simp, by simp, by simp, by simp⟩
+  | continue_ s =>
+    intro st n c hc hg
+    simp only [chk, Option.some.injEq, Prod.mk.injEq] at hc
+    obtain ⟨rfl, rfl⟩ := hc
+    exact ⟨by simp, fun _ => ⟨st, rfl, hg⟩, by simp, by simp⟩
+  | returnOk s =>
+    intro st n c hc hg
+    simp only [chk] at hc
+    split at hc
+    · cases hc
+    · rename_i hne
+      exact ⟨by simp, by simp, fun _ => absHolds_set hg hne, by simp⟩
+  | foreign s s' k => intro st n c hc _; simp [chk] at hc
+  | seq_normal x y s s1 k s2 l1 l2 _ _ iha ihb =>
+    intro st n c hc hg
+    simp only [chk] at hc
+    cases hca : chk x st with
+    | none => simp [hca] at hc
+    | some r =>
+      obtain ⟨na, ca⟩ := r
+      have pa := iha st na ca hca hg
+      obtain ⟨st1, hn, hg1⟩ := pa.1 rfl
+      subst hn
+      simp only [hca] at hc
+      cases hcb : chk y st1 with
+      | none => simp [hcb] at hc
+      | some r2 =>
+        obtain ⟨nb, cb⟩ := r2
+        simp only [hcb] at hc
+        cases hj : joinAbs ca cb with
+        | none => simp [hj] at hc
+        | some cj =>
+          simp only [hj, Option.some.injEq, Prod.mk.injEq] at hc
+          obtain ⟨rfl, rfl⟩ := hc
+          have pb := ihb st1 nb cb hcb hg1
+          refine ⟨pb.1, ?_, pb.2.2.1, ?_⟩
+          · intro hk
+            obtain ⟨st', hc', hg'⟩ := pb.2.1 hk
+            subst hc'
+            exact ⟨st', joinAbs_right hj, hg'⟩
+          · intro x hx
+            cases List.mem_append.mp hx with
+            | inl h => exact pa.2.2.2 x h
+            | inr h => exact pb.2.2.2 x h
+  | seq_abrupt x y s k s1 l1 _ hk iha =>
+    intro st n c hc hg
+    simp only [chk] at hc
+    cases hca : chk x st with
+    | none => simp [hca] at hc
+    | some r =>
+      obtain ⟨na, ca⟩ := r
+      have pa := iha st na ca hca hg
+      simp only [hca] at hc
+      cases na with
+      | none =>
+        simp only [Option.some.injEq, Prod.mk.injEq] at hc
+        obtain ⟨rfl, rfl⟩ := hc
+        exact pa
+      | some st1 =>
+        simp only at hc
+        cases hcb : chk y st1 with
+        | none => simp [hcb] at hc
+        | some r2 =>
+          obtain ⟨nb, cb⟩ := r2
+          simp only [hcb] at hc
+          cases hj : joinAbs ca cb with
+          | none => simp [hj] at hc
+          | some cj =>
+            simp only [hj, Option.some.injEq, Prod.mk.injEq] at hc
+            obtain ⟨rfl, rfl⟩ := hc
+            refine ⟨fun h => absurd h hk, ?_, pa.2.2.1, pa.2.2.2⟩
+            intro hk'
+            obtain ⟨st', hc', hg'⟩ := pa.2.1 hk'
+            subst hc'
+            exact ⟨st', joinAbs_left hj, hg'⟩
+  | branch_then t e s k s1 l1 _ ih =>
+    intro st n c hc hg
+    simp only [chk] at hc
+    cases hct : chk t st with
+    | none => simp [hct] at hc
+    | some r1 =>
+      cases hce : chk e st with
+      | none => simp [hct, hce] at hc
+      | some r2 =>
+        obtain ⟨n1, c1⟩ := r1
+        obtain ⟨n2, c2⟩ := r2
+        simp only [hct, hce] at hc
+        cases hjn : joinAbs n1 n2 with
+        | none => simp [hjn] at hc
+        | some nj =>
+          cases hjc : joinAbs c1 c2 with
+          | none => simp [hjn, hjc] at hc
+          | some cj =>
+            simp only [hjn, hjc, Option.some.injEq, Prod.mk.injEq] at hc
+            obtain ⟨rfl, rfl⟩ := hc
+            have pt := ih st n1 c1 hct hg
+            refine ⟨?_, ?_, pt.2.2.1, pt.2.2.2⟩
+            · intro hk
+              obtain ⟨st', h', hg'⟩ := pt.1 hk
+              subst h'
+              exact ⟨st', joinAbs_left hjn, hg'⟩
+            · intro hk
+              obtain ⟨st', h', hg'⟩ := pt.2.1 hk
+              subst h'
+              exact ⟨st', joinAbs_left hjc, hg'⟩
+  | branch_else t e s k s1 l1 _ ih =>
+    intro st n c hc hg
+    simp only [chk] at hc
+    cases hct : chk t st with
+    | none => simp [hct] at hc
+    | some r1 =>
+      cases hce : chk e st with
+      | none => simp [hct, hce] at hc
+      | some r2 =>
+        obtain ⟨n1, c1⟩ := r1
+        obtain ⟨n2, c2⟩ := r2
+        simp only [hct, hce] at hc
+        cases hjn : joinAbs n1 n2 with
+        | none => simp [hjn] at hc
+        | some nj =>
+          cases hjc : joinAbs c1 c2 with
+          | none => simp [hjn, hjc] at hc
+          | some cj =>
+            simp only [hjn, hjc, Option.some.injEq, Prod.mk.injEq] at hc
+            obtain ⟨rfl, rfl⟩ := hc
+            have pe := ih st n2 c2 hce hg
+            refine ⟨?_, ?_, pe.2.2.1, pe.2.2.2⟩
+            · intro hk
+              obtain ⟨st', h', hg'⟩ := pe.1 hk
+              subst h'
+              exact ⟨st', joinAbs_right hjn, hg'⟩
+            · intro hk
+              obtain ⟨st', h', hg'⟩ := pe.2.1 hk
+              subst h'
+              exact ⟨st', joinAbs_right hjc, hg'⟩
+  | loop_done b s =>
+    intro st n c hc hg
+    simp only [chk] at hc
+    cases hcb : chk b st with
+    | none => simp [hcb] at hc
+    | some r =>
+      obtain ⟨nb, cb⟩ := r
+      simp only [hcb] at hc
+      split at hc
+      · simp only [Option.some.injEq, Prod.mk.injEq] at hc
+        obtain ⟨rfl, rfl⟩ := hc
+        exact ⟨fun _ => ⟨st, rfl, hg⟩, by simp, by simp, by simp⟩
+      · cases hc
+  | loop_iter b s k s1 l1 k2 s2 l2 _ hk _ ihb ihl =>
+    intro st n c hc hg
+    have hc0 := hc
+    simp only [chk] at hc
+    cases hcb : chk b st with
+    | none => simp [hcb] at hc
+    | some r =>
+      obtain ⟨nb, cb⟩ := r
+      simp only [hcb] at hc
+      split at hc
+      · rename_i hinv
+        have pb := ihb st nb cb hcb hg
+        have hg1 : absHolds p a st s1 := by
+          cases hk with
+          | inl hk =>
+            obtain ⟨st', h', hg'⟩ := pb.1 hk
+            cases hinv.1 with
+            | inl h0 => rw [h0] at h'; cases h'
+            | inr h0 => rw [h0] at h'; cases h'; exact hg'
+          | inr hk =>
+            obtain ⟨st', h', hg'⟩ := pb.2.1 hk
+            cases hinv.2 with
+            | inl h0 => rw [h0] at h'; cases h'
+            | inr h0 => rw [h0] at h'; cases h'; exact hg'
+        have pl := ihl st n c hc0 hg1
+        refine ⟨pl.1, pl.2.1, pl.2.2.1, ?_⟩
+        intro x hx
+        cases List.mem_append.mp hx with
+        | inl h => exact pb.2.2.2 x h
+        | inr h => exact pl.2.2.2 x h
+      · cases hc
+  | loop_abrupt b s k s1 l1 _ hk ihb =>
+    intro st n c hc hg
+    simp only [chk] at hc
+    cases hcb : chk b st with
+    | none => simp [hcb] at hc
+    | some r =>
+      obtain ⟨nb, cb⟩ := r
+      simp only [hcb] at hc
+      split at hc
+      · simp only [Option.some.injEq, Prod.mk.injEq] at hc
+        obtain ⟨rfl, rfl⟩ := hc
+        have pb := ihb st nb cb hcb hg
+        refine ⟨?_, ?_, pb.2.2.1, pb.2.2.2⟩
+        · intro h; cases hk with
+          | inl h' => rw [h'] at h; cases h
+          | inr h' => rw [h'] at h; cases h
+        · intro h; cases hk with
+          | inl h' => rw [h'] at h; cases h
+          | inr h' => rw [h'] at h; cases h
+      · cases hc
+
+/-- a body that passes the check: however it is executed from the set `a`, it cannot fall off its end or `continue`
+    out of itself, every `Ok` return hands the set back as it was, and every call of `expand_mechdown_include_tokens`
+    happens with the set `p :: a` — the model's `expandFile fs n (p :: active)` -/
+theorem discipline_sound (p : Path) (a : List Path) (body : Skel) (hok : disciplineOk body = true)
+    {k : Exit} {s' : List Path} {log : List (List Path)} (h : Exec p body a k s' log) :
+    k ≠ .normal ∧ k ≠ .cont ∧ (k = .retOk → s' = a) ∧ (∀ x ∈ log, x = p :: a) := by
+  have hc : chk body .entry = some (none, none) := by
+    simpa [disciplineOk] using hok
+  have := chk_sound p a h .entry none none hc rfl
+  refine ⟨?_, ?_, this.2.2.1, this.2.2.2⟩
+  · intro hk; obtain ⟨_, h', _⟩ := this.1 hk; cases h'
+  · intro hk; obtain ⟨_, h', _⟩ := this.2.1 hk; cases h'
+
+/-- the skeleton contains no call of the tokens function -/
+def noTokensCalls : Skel → Bool
+  | .skip => true
+  | .ev e => e != .callTokens && e != .foreign
+  | .seq a b => noTokensCalls a && noTokensCalls b
+  | .branch t e => noTokensCalls t && noTokensCalls e
+  | .loop b => noTokensCalls b
+
+theorem noTokensCalls_log (p : Path) {sk : Skel} {s : List Path} {k : Exit} {s' : List Path}
+    {log : List (List Path)} (hn : noTokensCalls sk = true) (h : Exec p sk s k s' log) : log = [] := by
+  induction h with
+  | tokens_ok s => simp [noTokensCalls] at hn
+  | tokens_err s => simp [noTokensCalls] at hn
+  | seq_normal x y s s1 k s2 l1 l2 _ _ iha ihb =>
+    simp only [noTokensCalls, Bool.and_eq_true] at hn
+    rw [iha hn.1, ihb hn.2]; rfl
+  | seq_abrupt x y s k s1 l1 _ _ iha =>
+    simp only [noTokensCalls, Bool.and_eq_true] at hn
+    exact iha hn.1
+  | branch_then t e s k s1 l1 _ ih =>
+    simp only [noTokensCalls, Bool.and_eq_true] at hn
+    exact ih hn.1
+  | branch_else t e s k s1 l1 _ ih =>
+    simp only [noTokensCalls, Bool.and_eq_true] at hn
+    exact ih hn.2
+  | loop_iter b s k s1 l1 k2 s2 l2 _ _ _ ihb ihl =>
+    have hb : noTokensCalls b = true := by simpa [noTokensCalls] using hn
+    rw [ihb hb, ihl hn]; rfl
+  | loop_abrupt b s k s1 l1 _ _ ihb =>
+    have hb : noTokensCalls b = true := by simpa [noTokensCalls] using hn
+    exact ihb hb
+  | _ => rfl
+
 end MechVerif.IncludeIR
